@@ -5,6 +5,7 @@ CONSTANTS
   Inners = {"chatIn"}
   Gens = {"v1", "v2"}
   JidCfgs = {"plain"}
+  Estabs = {"configured"}
   Hows = {}
   MaxHist = 3
 CONSTRAINT Bound
